@@ -213,12 +213,12 @@ Proof.
     { rewrite Hc. destruct (Rlt_dec t 0); [lra|]. destruct (Rlt_dec dur t); lra. }
     destruct ob as [o|]; [|now rewrite E].
     destruct (leb RN (abs RN (sub RN t (clamp_sel RN dur t))) tol) eqn:E'; [|reflexivity].
-    apply Hw in E'. lra.
+    pose proof (proj1 Hw eq_refl). lra.
   - assert (E : clamp_sel RN dur t = 0).
     { rewrite Hc. destruct (Rlt_dec t 0); lra. }
     destruct ob as [o|]; [|now rewrite E].
     destruct (leb RN (abs RN (sub RN t (clamp_sel RN dur t))) tol) eqn:E'; [|reflexivity].
-    apply Hw in E'. lra.
+    pose proof (proj1 Hw eq_refl). lra.
 Qed.
 
 (* ------------------------------------------------------------------ shapes: the result has the selector's shape *)
@@ -276,6 +276,9 @@ Proof.
   f_equal. f_equal. apply map_ext_in. intros i Hi. apply in_seq in Hi. rewrite bsrc_expand by lia. reflexivity.
 Qed.
 
+Lemma flat_map_single {X Y} (g : X -> Y) l : flat_map (fun e => [g e]) l = map g l.
+Proof. induction l as [|x l IH]; cbn; [reflexivity|]. now rewrite IH. Qed.
+
 Section ParamAt.
 Variables (n : nat) (sh : list nat) (peekv : list R) (selv : nat -> R -> R) (dt dur tol : R) (ob : option R).
 Hypothesis Hdt : 0 < dt.
@@ -308,8 +311,8 @@ Theorem param_at_delayed_flat sel : n <> 1%nat ->
 Proof.
   intros Hn. unfold param_at. replace (n =? 1)%nat with false by (symmetry; apply Nat.eqb_neq; exact Hn).
   rewrite Nat.eqb_refl. cbn [orb negb]. rewrite no_range_error. f_equal. f_equal.
-  induction (seq 0 (nel sh)) as [|e l IH]; cbn [flat_map map seq app]; [reflexivity|].
-  rewrite IH. f_equal. f_equal. f_equal. lia.
+  cbn [seq map]. rewrite flat_map_single. apply map_ext. intros e.
+  replace (e * 1 + 0)%nat with e by lia. reflexivity.
 Qed.
 
 (* undelayed record (recordsz = 1, maximum delay 0): the present value, expanded along the trailing axis,
